@@ -162,21 +162,51 @@ proof fn lemma_nd_step<V>(n: NfaBuilder<u8, V>, s: int, c: u8, f: int, r: int)
     }
 }
 
+// the structural hypotheses in one opaque bundle: the inductive lemmas below see only this atom
+#[verifier::opaque]
+spec fn ac_ctx0<V>(n: NfaBuilder<u8, V>) -> bool { nfa_tree(n) && trie_ok(n) && nfa_links(n, false) && ac_fail(n) }
+
+proof fn w_nd_unfold<V>(n: NfaBuilder<u8, V>, s: int, c: u8)
+    requires ac_ctx0(n), 0 <= s < n.states@.len(), s != 1,
+    ensures nfa_nd(n, s, c) == (if nfa_edges(n, s).contains_key(c) { nfa_edges(n, s)[c] as int } else if s == 0 { 0 } else { nfa_nd(n, n.states@[s].fail as int, c) }),
+        0 <= nfa_nd(n, s, c) < n.states@.len(), nfa_nd(n, s, c) != 1,
+        s >= 2 ==> 0 <= n.states@[s].fail < n.states@.len() && n.states@[s].fail != 1 && nfa_depth(n, n.states@[s].fail as int) < nfa_depth(n, s),
+{
+    reveal(ac_ctx0);
+    lemma_nd_range(n, s, c);
+}
+proof fn w_nd_edge<V>(n: NfaBuilder<u8, V>, s: int, c: u8)
+    requires ac_ctx0(n), 0 <= s < n.states@.len(), s != 1, nfa_edges(n, s).contains_key(c),
+    ensures nd_ok(n, s, c, nfa_edges(n, s)[c] as int),
+{ reveal(ac_ctx0); lemma_nd_edge(n, s, c); }
+proof fn w_nd_root<V>(n: NfaBuilder<u8, V>, c: u8)
+    requires ac_ctx0(n), !nfa_edges(n, 0).contains_key(c),
+    ensures nd_ok(n, 0, c, 0),
+{ reveal(ac_ctx0); lemma_nd_root(n, c); }
+proof fn w_nd_step<V>(n: NfaBuilder<u8, V>, s: int, c: u8, r: int)
+    requires ac_ctx0(n), 2 <= s < n.states@.len(), !nfa_edges(n, s).contains_key(c), nd_ok(n, n.states@[s].fail as int, c, r),
+    ensures nd_ok(n, s, c, r),
+{
+    reveal(ac_ctx0);
+    lemma_ac_fail(n, s);
+    lemma_nd_step(n, s, c, n.states@[s].fail as int, r);
+}
+
 // the goto/fail transition computes the longest suffix of path(s)+c that is a trie node
 proof fn lemma_nd_longest<V>(n: NfaBuilder<u8, V>, s: int, c: u8)
-    requires nfa_tree(n), trie_ok(n), nfa_links(n, false), ac_fail(n), 0 <= s < n.states@.len(), s != 1,
+    requires ac_ctx0(n), 0 <= s < n.states@.len(), s != 1,
     ensures nd_ok(n, s, c, nfa_nd(n, s, c)),
     decreases nfa_depth(n, s),
 {
+    w_nd_unfold(n, s, c);
     if nfa_edges(n, s).contains_key(c) {
-        lemma_nd_edge(n, s, c);
+        w_nd_edge(n, s, c);
     } else if s == 0 {
-        lemma_nd_root(n, c);
+        w_nd_root(n, c);
     } else {
         let f = n.states@[s].fail as int;
-        lemma_ac_fail(n, s);
         lemma_nd_longest(n, f, c);
-        lemma_nd_step(n, s, c, f, nfa_nd(n, f, c));
+        w_nd_step(n, s, c, nfa_nd(n, f, c));
     }
 }
 
@@ -216,10 +246,10 @@ proof fn lemma_ls_step<V>(n: NfaBuilder<u8, V>, w: Seq<u8>, c: u8, x: int, r: in
     }
 }
 proof fn lemma_ls_empty<V>(n: NfaBuilder<u8, V>, w: Seq<u8>)
-    requires nfa_tree(n), w.len() == 0,
+    requires ac_ctx0(n), w.len() == 0,
     ensures ls_ok(n, w, 0),
 {
-    reveal(ls_ok);
+    reveal(ls_ok); reveal(ac_ctx0);
     assert(path(n, 0).len() == 0);
     assert(is_suffix(path(n, 0), w));
 }
@@ -227,8 +257,12 @@ proof fn lemma_ls_range<V>(n: NfaBuilder<u8, V>, w: Seq<u8>, r: int)
     requires ls_ok(n, w, r),
     ensures 0 <= r < n.states@.len(), r != 1,
 { reveal(ls_ok); }
+proof fn w_ls_step<V>(n: NfaBuilder<u8, V>, w: Seq<u8>, c: u8, x: int, r: int)
+    requires ac_ctx0(n), ls_ok(n, w, x), nd_ok(n, x, c, r),
+    ensures ls_ok(n, w.push(c), r),
+{ reveal(ac_ctx0); lemma_ls_step(n, w, c, x, r); }
 proof fn lemma_ls<V>(n: NfaBuilder<u8, V>, w: Seq<u8>)
-    requires nfa_tree(n), trie_ok(n), nfa_links(n, false), ac_fail(n),
+    requires ac_ctx0(n),
     ensures ls_ok(n, w, ls(n, w)),
     decreases w.len(),
 {
@@ -240,7 +274,7 @@ proof fn lemma_ls<V>(n: NfaBuilder<u8, V>, w: Seq<u8>)
         let x = ls(n, w1);
         lemma_ls_range(n, w1, x);
         lemma_nd_longest(n, x, c);
-        lemma_ls_step(n, w1, c, x, nfa_nd(n, x, c));
+        w_ls_step(n, w1, c, x, nfa_nd(n, x, c));
         assert(w1.push(c) =~= w);
     }
 }
@@ -342,6 +376,7 @@ proof fn lemma_scan_step_e<V>(n: NfaBuilder<u8, V>, hay: Seq<u8>, k: nat, end: n
     let w = hay.take(k as int); let w2 = hay.take(k as int + 1);
     assert(w2.drop_last() =~= w && w2.last() == hay[k as int]);
     let t = ls(n, w2);
+    assert(ac_ctx0(n)) by { reveal(ac_ctx0); }
     lemma_ls(n, w2);
     lemma_ls_range(n, w2, t);
     lemma_ls_len(n, w2, t);
